@@ -65,6 +65,17 @@ Theorem C08_redefinition_seen_by_cached_code : forall n st ft en e g ps body r0 
 Proof. exact late_binding. Qed.
 Print Assumptions C08_redefinition_seen_by_cached_code.
 
+(* (6b) "A call to a not-yet-defined function still passes its arguments once the function exists":
+   compile a form while g is unknown (its calls of g become placeholder calls), then define g (always
+   inside the guard), then evaluate the compiled form: S's outcome with g's definition - in particular g's
+   parameters are bound to the values of the call's arguments. *)
+Theorem C08_forward_reference_passes_arguments : forall n st ft en e g ps body rS oS,
+  Inv st -> Rel st ft -> slookup g (funcs st) = None ->
+  evalS n ((g, (ps, body)) :: ft) en (out st) e = (rS, oS) -> comparable rS = true ->
+  exists st2, evalM n (defunM (compile_slot st e) g ps body) en e = (rS, st2) /\ out st2 = oS.
+Proof. exact forward_reference. Qed.
+Print Assumptions C08_forward_reference_passes_arguments.
+
 (* (7) Definition-order independence.  (a) in S the table after a block of definitions of distinct names
    is the same function of the set of definitions for every order, hence every later evaluation is the
    same; (b) the same for M: after the block in either order, every form evaluates to S's outcome;
